@@ -76,6 +76,10 @@ class ProgramRunner:
                             node = node[k]
                         args = [model.decode(a, self_obj=node) for a in st.get("args", [])]
                         out = model.run_sut(node, st["op"], args)
+                        if out.kind == "ret":
+                            # snapshot now: returned nodes are live and are updated in place
+                            # by later reloads
+                            out.value = model.to_plain(out.value)
                     except sched.SchedAbort:
                         raise
                     except Exception as e:  # noqa: BLE001 - navigation failure
